@@ -605,6 +605,31 @@ def rule_select(ctx, rep):
                           "get_call_rcu_data can return a NULL per-CPU helper", [h.rets()[0].where()])
 
 
+def rule_init_before_thread(ctx, rep):
+    """a helper's call_rcu_data is completely initialised before the thread that runs on it is created: the new thread reads
+    flags (RT or not), the futex word and the queue at once, and there is no synchronisation between pthread_create() returning
+    and the creator's later stores (a helper that read flags == 0 sleeps on a futex nobody ever wakes for an RT helper)."""
+    for fl in ALL:
+        F = FL[fl]
+        for name in (F.pfx + "_create_call_rcu_data", F.pfx + "_get_default_call_rcu_data"):
+            f = ctx.fn(F.lib, name)
+            rep.touch(f)
+            pc = pat.calls(f, "pthread_create")
+            pat.require(pc, "%s: pthread_create" % name)
+            late = []
+            for i in f.all_insts():
+                e = mm.effect_of(i) if i.op in ("store", "asm", "rmw", "cmpxchg") else None
+                if e is None or e.ap is None or not e.writes():
+                    continue
+                aps = ir.ap_str(f, e.ap)
+                if not aps.startswith("malloc()") or ".call_rcu_data." not in aps:
+                    continue
+                if f.reach(pc, [i])[0] is not None:
+                    late.append((i, aps))
+            rep.check(not late, "C03.init", "%s.%s.init≺thread" % (fl, name), "every field of the new call_rcu_data is written before pthread_create",
+                      "%s is written after pthread_create: the helper thread may already have read the old (zero) value" % sorted(set(a.split(".call_rcu_data.")[-1] for _i, a in late)), [i.where() for i, _a in late[:2]])
+
+
 def rule_helper_loop(ctx, rep):
     """The helper thread as a consumer loop (sibling of the work queue worker, same template): a grabbed batch is always
     iterated, the private batch queue is re-initialised before each splice, every callback is invoked, the thread returns only
@@ -619,6 +644,7 @@ def rule_helper_loop(ctx, rep):
 
 RULES = [
     ("C03.helper", rule_helper_loop),
+    ("C03.init", rule_init_before_thread),
     ("C03.flags", rule_flags),
     ("C03.gp", rule_gp),
     ("C03.enq", rule_enq),
